@@ -175,6 +175,28 @@ func genC16(g *Gen) {
 			c16run(g, "all 16384 subsets, random order", set, types, shuffled(inputs3)[:20])
 		}
 	}
+	// registration interleaved with reading (a table that is extended after it has been used)
+	m3 := g.Pick(400, 6000)
+	for x := 0; x < m3; x++ {
+		st := generic.NewGenericSymbolState()
+		seg := []Ev{{"op": "new"}}
+		perm := r.Perm(n)[:2+r.Intn(6)]
+		for _, pi := range perm {
+			s := uni[pi]
+			seg = append(seg, Ev{"op": "add", "sym": cpsR(s), "type": typeOf(s)})
+			st.Add(string(s), typeOf(s))
+			for y := 0; y < 1+r.Intn(3); y++ {
+				in := inputs4[r.Intn(len(inputs4))]
+				seg = append(seg, Ev{"op": "scan", "input": cpsR(in)})
+				sc := sio.NewStringScanner(string(in))
+				for guard := 0; sc.Peek() != -1 && guard < len(in)+2; guard++ {
+					st.NextToken(sc, nil)
+					seg = append(seg, Ev{"op": "next"})
+				}
+			}
+		}
+		g.Run("registration interleaved with reading", seg)
+	}
 	// larger alphabet, longer symbols, types shared/reused, non-ASCII
 	alpha := []rune{'<', '>', '=', '!', '{', '}', 0xe9, 0x416, '\n', '\r'}
 	m2 := g.Pick(150, 2000)
